@@ -182,6 +182,12 @@ theorem retK_of_fin1 (σ : State) (l : LV) (f : String) (o : Out) (v : Val) (fl 
     retK σ [l] f o = .normal (({ σ with fld := fl } : State).assign1 l v) := by
   cases o <;> simp_all [Out.fin, retK, assignK, State.assign]
 
+/-- a call with two results -/
+theorem retK_of_fin2 (σ : State) (l1 l2 : LV) (f : String) (o : Out) (v1 v2 : Val) (fl : Env)
+    (h : o.fin = some ([v1, v2], fl)) :
+    retK σ [l1, l2] f o = assignK { σ with fld := fl } [l1, l2] (msg "result arity of" f) [v1, v2] := by
+  cases o <;> simp_all [Out.fin, retK]
+
 /-- running a function from outside -/
 theorem run_of_fin (X : Ctx) (fuel : Nat) (f : String) (fn : Fun) (args : List Val) (fld : Env) (rs : List Val) (fl : Env)
     (hf : X.funs f = some fn) (ha : fn.params.length = args.length)
